@@ -6,6 +6,7 @@ import (
 	"net"
 	"net/netip"
 	"time"
+	"verif/drv"
 
 	"github.com/uhppoted/uhppote-core/types"
 	"github.com/uhppoted/uhppote-core/uhppote"
@@ -589,6 +590,105 @@ func sweepArgs(r *vk.Run) (tuples int64) {
 			c.panicked(frame, "NewUHPPOTE/DeviceList panicked: "+msg, "new", i)
 		}
 		tuples++
+	}
+	tuples += sweepConfigured(c, -1)
+	return
+}
+
+// ---- constructor arguments, continued: every operation through clients whose controller is
+// configured with each of a menu of (address, protocol, door names, time zone) - addresses that
+// are not usable IPv4 endpoints included (IPv6, IPv4-mapped, zone-qualified, zero, port 0).
+type configCase struct {
+	Config int    `json:"configuration"`
+	Desc   string `json:"device"`
+	Op     string `json:"op"`
+	Reply  bool   `json:"reply"`
+}
+
+func configuredDevices() (out []uhppote.Device, desc []string) {
+	addrs := []string{"", "0.0.0.0", "10.0.0.1", "255.255.255.255", "::1", "::", "2001:db8::1", "::ffff:10.0.0.1", "fe80::1%eth0", "ff02::1"}
+	santiago, err := time.LoadLocation("America/Santiago")
+	if err != nil {
+		panic(err)
+	}
+	for _, a := range addrs {
+		for _, port := range []uint16{60000, 0} {
+			for _, proto := range []string{"", "udp", "tcp", "any"} {
+				for k, doors := range [][]string{nil, {"A", "B"}} {
+					address := types.ControllerAddr{}
+					if a != "" {
+						address = types.ControllerAddrFrom(netip.MustParseAddr(a), port)
+					} else if port == 0 {
+						continue
+					}
+					tz := []*time.Location{nil, santiago}[k]
+					out = append(out, uhppote.Device{Name: "cfg", DeviceID: 405419896, Address: address, Doors: doors, TimeZone: tz, Protocol: proto})
+					desc = append(desc, fmt.Sprintf("Device{Address: %q port %d, Protocol: %q, Doors: %v, TimeZone: %v}", a, port, proto, doors, tz))
+					if k == 1 {
+						out = append(out, uhppote.NewDevice("cfg", 405419896, address, proto, doors, tz))
+						desc = append(desc, fmt.Sprintf("NewDevice(address %q port %d, protocol %q, doors %v, %v)", a, port, proto, doors, tz))
+					}
+				}
+			}
+		}
+	}
+	return
+}
+
+func sweepConfigured(c *ctx, only int) (n int64) {
+	devices, desc := configuredDevices()
+	const serial = 405419896
+	for i := range devices {
+		if only >= 0 && i != only {
+			continue
+		}
+		var cl *client
+		if p, msg, frame := vk.Guard(func() {
+			cl = &client{path: "configured", serials: []uint32{serial}}
+			cl.u = uhppote.NewUHPPOTE(types.BindAddr{}, types.BroadcastAddr{}, types.ListenAddr{}, time.Second, devices[i:i+1], false)
+			cl.f = &drv.Fake{Script: func(drv.Call) ([][]byte, error) { return cl.answer, nil }}
+			if !drv.Install(cl.u, cl.f) {
+				panic("cannot install the fake driver")
+			}
+		}); p {
+			c.panicked(frame, "NewUHPPOTE("+desc[i]+") panicked: "+msg, "config-api", configCase{i, desc[i], "NewUHPPOTE", false})
+			continue
+		}
+		ops := append([]apiOp{getDevicesOp}, apiOps...)
+		for k := range ops {
+			op := &ops[k]
+			for _, reply := range []bool{true, false} {
+				cl.answer = nil
+				if reply {
+					if s := responseSample(op.code); s != nil {
+						cl.answer = [][]byte{withSerial(s, serial)}
+					}
+				}
+				cl.f.Reset()
+				c.count++
+				n++
+				var vs []any
+				var err error
+				cs := func() any { return configCase{i, desc[i], op.name, reply} }
+				p, msg, frame := vk.Guard(func() { vs, err = op.call(cl.u, serial) })
+				if c.verbose {
+					fmt.Printf("%s on a client configured with %s (reply=%v): library = %v, %v panic=%v %s   reference = returns without panicking\n", op.name, desc[i], reply, vs, err, p, msg)
+				}
+				if p {
+					c.panicked(frame, fmt.Sprintf("%s panicked on a client whose controller is configured as %s: %s", op.name, desc[i], msg), "config-api", cs())
+					continue
+				}
+				if err != nil {
+					if p, msg, frame := vk.Guard(func() { _ = err.Error() }); p {
+						c.panicked(frame, fmt.Sprintf("the error returned by %s panicked in Error(): %s", op.name, msg), "config-api", cs())
+					}
+					continue
+				}
+				for _, v := range vs {
+					c.renderAll(v, "returned by "+op.name, "config-api", cs)
+				}
+			}
+		}
 	}
 	return
 }
